@@ -257,6 +257,25 @@ int main(int argc, char **argv) {
   add("single-subgrid", 1, 1, 1, false, 1, false, true, 0, 7, 2, 0.02);
   add("opaque-diffuse", 2, 1, 1, false, 1, false, true, 0, 7, 1, 100.);
 
+  if (!A.get("dump-params").empty()) {
+    // write the parameter files of all configurations (used by the TSan audit)
+    const std::string d = A.get("dump-params");
+    for (const Config &c : cfgs) {
+      const std::string sub = d + "/ion-" + c.name;
+      mkdir(sub.c_str(), 0700);
+      FILE *f = fopen((sub + "/params.yml").c_str(), "w");
+      fputs(param_text(c).c_str(), f);
+      fclose(f);
+      if (c.sources == 2) {
+        f = fopen((sub + "/sources.txt").c_str(), "w");
+        fputs("# sources\n2\n# total luminosity (s^-1)\n5.e49\n# x y z (m) weight\n", f);
+        fputs("0.\t3.0857e15\t3.0857e15\t0.8\n", f);
+        fputs("-6.1714e16\t-3.0857e16\t1.54285e16\t0.2\n", f);
+        fclose(f);
+      }
+    }
+    return 0;
+  }
   std::vector< Job > jobs;
   const bool thorough = A.thorough();
   for (const Config &c : cfgs) {
